@@ -28,6 +28,7 @@ Inductive obs :=
 | OL                                   (* app.connection_lost *)
 (* ghost observations (not visible from outside; they make the lock discipline part of the trace) *)
 | GIssue (rid : nat) (blocking : bool) (nfrags : nat)
+| GSkip (rid : nat) (k : nat)           (* fragment k not written: no transport (the send returns at once) *)
 | GBlkAcq (rid : nat) | GBlkWait (rid : nat) | GBlkRel (rid : nat) | GBlkDrop (rid : nat)
 | GMsgAcq (rid : nat) | GMsgWait (rid : nat) | GMsgRel (rid : nat) | GMsgDrop (rid : nat).
 
@@ -166,7 +167,7 @@ Definition do_write (s : state) (rid : nat) : state :=
     let s2 := set_link s1 (pack_seq s1) (Some rid) (uart_present s1) (transport_open s1) (app_attached s1)
                        (reset_in_progress s1) (rx_seq s1) (now s1) in
     set_phase s2 rid (PAwaitAck k (now s + ack_timeout_ms))
-  else set_phase (set_ghost s (S k) (tbl s)) rid (PAwaitAck k (now s))   (* nothing written: the send returns at once *)
+  else set_phase (emit (set_ghost s (S k) (tbl s)) (GSkip rid k)) rid (PAwaitAck k (now s))   (* nothing written *)
 .
 
 (* the request ends: its future is cancelled by `finally` if still pending *)
@@ -332,14 +333,17 @@ Definition cancel_waiters (s : state) : state :=
                           | PAwaitRsp _ => settle (finish acc (r_id r) OCancelled) [(r_id r, 4%nat)]
                           | _ => acc end) victims s1.
 
+(* no reset in progress: the application is detached *)
+Definition detach_app (s : state) : state :=
+  set_link s (pack_seq s) (ack_owner s) (uart_present s) (transport_open s) false false (rx_seq s) (now s).
+
 Definition close (s : state) : state :=
   (* close() is synchronous: listeners are cancelled and the uart is closed before any woken task runs *)
   let s0 := if uart_present s
             then set_link s 0 (ack_owner s) false false (app_attached s) (reset_in_progress s) (rx_seq s) (now s)
             else s in
   if reset_in_progress s0 then s0
-  else cancel_waiters (set_link s0 (pack_seq s0) (ack_owner s0) (uart_present s0) (transport_open s0) false
-                                (reset_in_progress s0) (rx_seq s0) (now s0)).
+  else cancel_waiters (detach_app s0).
 
 Definition lost (s : state) : state :=
   let s1 := set_link s (pack_seq s) (ack_owner s) false (transport_open s) (app_attached s) (reset_in_progress s) (rx_seq s) (now s) in
